@@ -512,13 +512,15 @@ class HObj:
 
 
 class HBio:
-    """io.BytesIO used append-only; content: SStr"""
+    """io.BytesIO; content: SStr; pos: None = positioned at the end (append mode), else an Int term (only 0 is modelled,
+    as produced by io.BytesIO(initial_bytes))"""
 
-    def __init__(self, content=None):
+    def __init__(self, content=None, pos=None):
         self.content = content if content is not None else SStr([], False)
+        self.pos = pos
 
     def clone(self):
-        return HBio(self.content)
+        return HBio(self.content, self.pos)
 
 
 class SymSeqA:
